@@ -441,3 +441,164 @@ def truncate_session(g):
             ops.append(call("A", pk10t))
             ops.append(call("A", [x for k in pre for x in k] + pk[:c]))
     return ops
+
+
+# ---------------------------------------------------------------------- relational rounds
+def packet_sequence(g, n, ex9, ex10, self_delimiting=True):
+    """n conformant packets over one pair of exporters (templates before data), each self-delimiting"""
+    r = g.r
+    pks = []
+    for _ in range(n):
+        m = r.random()
+        if m < 0.2:
+            pks.append((5, g.fixed(5, r.choice([0, 1, 2]))))
+        elif m < 0.3:
+            pks.append((7, g.fixed(7, r.choice([1, 2]))))
+        else:
+            proto = "v9" if r.random() < 0.5 else "ipfix"
+            e = ex9 if proto == "v9" else ex10
+            sets = []
+            for _ in range(r.choice([1, 1, 2, 3])):
+                known = list(e.tm.keys())
+                if r.random() < 0.45 or not known:
+                    t = r.choice(e.ids)
+                    e.new_def(t, kind="data", unknown=r.random() < 0.3)
+                    sets.append(e.tmpl_set([t]))
+                else:
+                    sets.append(e.data(r.choice(known)))
+            pks.append((9 if proto == "v9" else 10, e.packet(sets)))
+    return pks
+
+
+def cuts(g, n):
+    """a random partition of n packets into consecutive groups"""
+    groups, cur = [], []
+    for i in range(n):
+        cur.append(i)
+        if g.r.random() < 0.5:
+            groups.append(cur)
+            cur = []
+    if cur:
+        groups.append(cur)
+    return groups
+
+
+def rounds_session(g):
+    r = g.r
+    ops = []
+    # ---- chain (C11, C06 partition independence)
+    ex9, ex10 = Exporter(g, "v9"), Exporter(g, "ipfix")
+    pks = packet_sequence(g, r.choice([2, 3, 4, 6, 8, 12]), ex9, ex10)
+    ops += ops_reset(("W", "S", "F"))
+    ops.append(call("W", [x for _, pk in pks for x in pk]))
+    for grp in cuts(g, len(pks)):
+        ops.append(call("S", [x for i in grp for x in pks[i][1]]))
+    for _, pk in pks:
+        ops.append(call("F", pk))
+    ops.append({"op": "round", "kind": "chain", "a": "W", "b": "F", "c": ""})
+    ops.append({"op": "round", "kind": "chain", "a": "S", "b": "F", "c": ""})
+    # ---- filter (C12)
+    ex9, ex10 = Exporter(g, "v9"), Exporter(g, "ipfix")
+    hist = packet_sequence(g, r.choice([0, 2, 4]), ex9, ex10)
+    pks = packet_sequence(g, r.choice([1, 2, 3, 5]), ex9, ex10)
+    extra = r.choice([[], [1], [8], [0, 65535]])
+    S = sorted(set(r.sample([5, 7, 9, 10], r.randrange(0, 5)) + extra))
+    if r.random() < 0.3:
+        pks.insert(r.randrange(len(pks) + 1), (extra[0] if extra else 3, b16(extra[0] if extra else 3) + g.rbytes(r.choice([2, 10, 30]))))
+    everything = sorted(set([5, 7, 9, 10] + extra + [3]))
+    ops += ops_reset(("a", "b", "c"), everything)
+    for p in ("a", "b", "c"):
+        for _, pk in hist:
+            ops.append(call(p, pk))
+    # results accumulate from `new`: use fresh accumulators by re-creating parsers is not possible (state), so
+    # the history is part of all three accumulations alike
+    ops.append({"op": "allow", "p": "a", "allowed": S})
+    ops.append({"op": "round", "kind": "mark", "a": "", "b": "", "c": ""})
+    buf = [x for _, pk in pks for x in pk]
+    k = next((i for i, (v, _) in enumerate(pks) if v not in S), len(pks))
+    ops.append(call("a", buf))
+    ops.append(call("b", buf))
+    pre = [x for _, pk in pks[:k] for x in pk]
+    if pre:
+        ops.append(call("c", pre))
+    ops.append({"op": "round", "kind": "filter", "a": "a", "b": "b", "c": "c"})
+    # ---- trunc (C14)
+    ex9, ex10 = Exporter(g, "v9"), Exporter(g, "ipfix")
+    hist = packet_sequence(g, 3, ex9, ex10)
+    pks = packet_sequence(g, r.choice([0, 1, 2]), ex9, ex10)
+    last = packet_sequence(g, 1, ex9, ex10)[0]
+    while len(last[1]) < 3:
+        last = packet_sequence(g, 1, ex9, ex10)[0]
+    cut = r.randrange(1, len(last[1]))
+    ops += ops_reset(("a", "b"))
+    for p in ("a", "b"):
+        for _, pk in hist:
+            ops.append(call(p, pk))
+    ops.append({"op": "round", "kind": "mark", "a": "", "b": "", "c": ""})
+    whole = [x for _, pk in pks for x in pk]
+    ops.append(call("a", whole + last[1][:cut]))
+    if whole:
+        ops.append(call("b", whole))
+    ops.append({"op": "round", "kind": "trunc", "a": "a", "b": "b", "c": ""})
+    return ops
+
+
+# ---------------------------------------------------------------------- scale (C01 / C15)
+def scale_sessions(g, tier):
+    """adversarial large inputs: deep chains, huge record counts, counts announcing absent bytes,
+    templates with thousands of fields, zero-length inflation (each in its own session)"""
+    r = g.r
+    S = []
+
+    def sess(*bufs):
+        ops = ops_reset(("A",))
+        for b in bufs:
+            ops.append(call("A", b))
+        S.append(ops)
+    hx = lambda n: b16(10) + b16(n) + [0] * 12
+    # 1. datagram packed with minimal packets
+    sess(hx(16) * 4095)
+    sess((b16(5) + b16(0) + [0] * 20) * 2730)
+    sess((b16(9) + b16(0) + [0] * 16) * 3276)
+    # 2. maximal record counts
+    sess(g.fixed(5, 1364))
+    sess(g.fixed(7, 1259))
+    # 3. one-byte records: IPFIX and V9 data sets with tens of thousands of records
+    t1 = g.ix_msg([g.set_(2, b16(256) + b16(1) + b16(4) + b16(1))])
+    for n in ((8000, 65000) if tier == "quick" else (8000, 30000, 65000)):
+        body = [i % 251 for i in range(n)]
+        sess(t1, b16(10) + b16(20 + n) + [0] * 12 + b16(256) + b16(4 + n) + body)
+    v1 = g.v9_hdr(1) + g.set_(0, b16(256) + b16(1) + b16(4) + b16(1))
+    for n in (8000, 65000):
+        body = [i % 251 for i in range(n)]
+        sess(v1, g.v9_hdr(1) + b16(256) + b16(4 + n) + body)
+    # 4. headers announcing 65535 records / fields / flowsets over short bodies
+    sess(b16(5) + b16(65535) + [0] * 20 + [1] * 48)
+    sess(b16(7) + b16(65535) + [0] * 20 + [1] * 52)
+    sess(b16(9) + b16(65535) + [0] * 16 + g.set_(0, b16(256) + b16(65535) + b16(1) + b16(4)))
+    sess(g.ix_msg([g.set_(2, b16(256) + b16(65535) + b16(1) + b16(4))]))
+    sess(g.ix_msg([g.set_(3, b16(256) + b16(65535) + b16(65535) + b16(1) + b16(4))]))
+    sess(b16(9) + b16(65535) + [0] * 16 + g.set_(1, b16(256) + b16(65535) + b16(65535) + b16(1) + b16(4)))
+    # 5. templates with thousands of fields, then data
+    nf = 16000
+    big = b16(256) + b16(nf) + [x for i in range(nf) for x in b16(1 + i % 90) + b16(1)]
+    sess(g.v9_hdr(1) + g.set_(0, big[:65000]), g.v9_hdr(1) + g.set_(256, [7] * 60000))
+    bigx = b16(256) + b16(nf) + [x for i in range(nf) for x in b16(1 + i % 90) + b16(1)]
+    sess(g.ix_msg([g.set_(2, bigx[:65000])]), g.ix_msg([g.set_(256, [7] * 60000)]))
+    # 6. zero-length fields: many fields of length 0 plus one of length 1 -> records of 1 byte with many values
+    for nz in ((100, 400) if tier == "quick" else (100, 1500, 4000, 15000)):
+        zt = b16(256) + b16(nz + 1) + [x for _ in range(nz) for x in b16(94) + b16(0)] + b16(1) + b16(1)
+        sess(g.ix_msg([g.set_(2, zt)]), g.ix_msg([g.set_(256, [9] * 2000)]))
+        zt9 = b16(256) + b16(nz + 1) + [x for _ in range(nz) for x in b16(94) + b16(0)] + b16(1) + b16(1)
+        sess(g.v9_hdr(1) + g.set_(0, zt9), g.v9_hdr(1) + g.set_(256, [9] * 2000))
+    # 7. variable-length fields with zero-length values: thousands of 1-byte records
+    vt = g.ix_msg([g.set_(2, b16(256) + b16(1) + b16(94) + b16(65535))])
+    sess(vt, g.ix_msg([g.set_(256, [0] * 60000)]))
+    # 8. many small sets in one message / packet
+    sess(t1, g.ix_msg([g.set_(256, [1])] * 12000))
+    sess(v1, b16(9) + b16(12000) + [0] * 16 + g.set_(256, [1]) * 12000)
+    sess(b16(9) + b16(16000) + [0] * 16 + [0, 0, 0, 4] * 16000)
+    ops = []
+    for s in S:
+        ops += s
+    return ops
